@@ -619,6 +619,16 @@ impl Tracer {
                 }
                 Some(StopReason::SignalStop(_, signal)) => {
                     if QUIET_SIGNALS.contains(&signal) {
+                        // the signal is injected right here: take back the request that
+                        // `apply_new_status` queued for the next resume, or the tracee would
+                        // receive the signal twice
+                        if let Some(pos) = self
+                            .inject_signal_queue
+                            .iter()
+                            .rposition(|(p, s)| *p == pid && *s == signal)
+                        {
+                            self.inject_signal_queue.remove(pos);
+                        }
                         self.tracee_ctl.tracee_ensure(pid).step(Some(signal))?;
                         continue;
                     }
